@@ -37,8 +37,12 @@
 #define ENS_EVAL_ONE_ARG PROP(C05) __CPROVER_ensures((g_eval_n <= 1) && (g_eval_n == 1 ==> g_eval_node[0] == g_args[0]) && (OK ==> g_eval_n == 1))
 /* C05: operands owned by a variable / constant / container (LVALUE) are left bit-for-bit unchanged,
  * on normal and on exceptional return */
-#define ENS_FRAME1 PROP(C05) __CPROVER_ensures((g_eval_n >= 1 && V_LVALUE(A1)) ==> (V_SAME(O1, A1) && (FRAME_IMAG(O1, A1, 0)) && (FRAME_STR(O1, A1, 0))))
-#define ENS_FRAME2 PROP(C05) __CPROVER_ensures((g_eval_n >= 2 && V_LVALUE(A2)) ==> (V_SAME(O2, A2) && (FRAME_IMAG(O2, A2, 1)) && (FRAME_STR(O2, A2, 1))))
+/* (FRAME_TAGS: the properties an untouched operand belongs to; C10 joins for the builtins that property names) */
+#ifndef FRAME_TAGS
+#define FRAME_TAGS C05
+#endif
+#define ENS_FRAME1 PROP(FRAME_TAGS) __CPROVER_ensures((g_eval_n >= 1 && V_LVALUE(A1)) ==> (V_SAME(O1, A1) && (FRAME_IMAG(O1, A1, 0)) && (FRAME_STR(O1, A1, 0))))
+#define ENS_FRAME2 PROP(FRAME_TAGS) __CPROVER_ensures((g_eval_n >= 2 && V_LVALUE(A2)) ==> (V_SAME(O2, A2) && (FRAME_IMAG(O2, A2, 1)) && (FRAME_STR(O2, A2, 1))))
 /* C05 (IC-own): the result is a temporary, or it is one of the operands handed through untouched */
 #define ENS_OWN2 PROP(C05) __CPROVER_ensures(OK ==> (!V_LVALUE(RET) || (g_eval_n >= 1 && RET == O1 && V_LVALUE(A1)) || (g_eval_n >= 2 && RET == O2 && V_LVALUE(A2))))
 #define ENS_OWN1 PROP(C05) __CPROVER_ensures(OK ==> (!V_LVALUE(RET) || (g_eval_n >= 1 && RET == O1 && V_LVALUE(A1))))
